@@ -835,7 +835,7 @@ def _check(run, rnd, thorough, tmp):
     # (done by the value oracle below: its inputs cover every documented keyword spelling)
 
     # 4a. value oracle -------------------------------------------------------------------------
-    inputs = value_inputs(rnd, 40 if thorough else 15)
+    inputs = value_inputs(rnd, 120 if thorough else 15)
     opts = converter.ConversionOptions(recursive=True)
     seen_fail = set()
     per_builtin = {}
